@@ -15,7 +15,7 @@ import subprocess
 
 import lib
 
-INFRA = ("malformed-graph", "bad-event-line", "event-about-unknown-task", "trace-truncated", "end-without-graph",
+INFRA = ("malformed-graph", "bad-event-line", "trace-truncated", "end-without-graph",
          "bad-sim-line")
 
 
@@ -85,6 +85,20 @@ def run_shards(ctx, go, model, cases, tag, sims=0, timeout=3000):
     return res
 
 
+def monitor_once(ctx, model, trace):
+    """the Lean monitor's verdict line for one trace (list of lines: graph header, events, end)"""
+    p, out = ctx.path("once.trace"), ctx.path("once.verd")
+    with open(p, "w") as h:
+        h.writelines(trace)
+        if not trace or not trace[-1].startswith("end"):
+            h.write("end\n")
+    rc, err = ctx.run([model], stdin=p, stdout=out, timeout=300)
+    if rc != 0:
+        ctx.fatal("model driver failed on a single trace: " + err[-400:])
+    verd = [l.rstrip("\n") for l in open(out) if not l.startswith("sim ")]
+    return verd[0] if verd else "reject 0 trace-truncated"
+
+
 def model_selfrun(ctx, model, cases, nsched=3):
     """sampled (not the proof): run the Lean MODEL on the generated graphs under pseudo-random schedules and
     put its traces through the same monitor; returns (runs, rejected lines)"""
@@ -139,6 +153,36 @@ def report_rejects(ctx, go, model, results, prop, limit=3):
         if verdict == "accept":
             continue
         reason = " ".join(verdict.split()[2:])
+        if reason == "event-about-unknown-task":
+            # The implementation ran a task the submitted graph does not contain (e.g. a handler registered
+            # under another name).  That is a deviation from the model by itself; to see whether the
+            # property's own clauses fail as well, the foreign events are dropped one by one and the
+            # monitor decides the rest of the trace.
+            dropped, t2, v2 = [], list(trace), verdict
+            while " ".join(v2.split()[2:]) == "event-about-unknown-task" and len(dropped) < 200:
+                seq = v2.split()[1]
+                hit = [l for l in t2 if l.split(" ", 1)[0] == seq]
+                if not hit:
+                    break
+                dropped.append(hit[0].strip())
+                t2 = [l for l in t2 if l.split(" ", 1)[0] != seq]
+                v2 = monitor_once(ctx, model, t2)
+            n += 1
+            if n > limit:
+                continue
+            r2 = " ".join(v2.split()[2:])
+            ann = ["monitor: " + verdict, "foreign events dropped: %d" % len(dropped)] + ["dropped: " + d for d in dropped[:20]]
+            ann += ["monitor after dropping them: " + v2] + ["impl-trace: " + l.strip() for l in trace if l[:1].isdigit()][:400]
+            lines = [l for l in case] + ([] if case[-1].startswith("end") else ["end"])
+            if v2 != "accept" and r2 not in INFRA:
+                ctx.violation("impl-vs-spec", "the implementation ran tasks the submitted graph does not contain (%d events); with "
+                              "those events set aside the rest of the trace violates the property: monitor says `%s`"
+                              % (len(dropped), v2), lines=lines, concrete=True, annotations=ann)
+            else:
+                ctx.violation("impl-vs-model", "the implementation ran tasks the submitted graph does not contain (%d events, first: "
+                              "%s); the rest of the trace is accepted by the monitor" % (len(dropped), dropped[0] if dropped else "?"),
+                              lines=lines, concrete=False, annotations=ann)
+            continue
         if reason in INFRA:
             ctx.fatal("harness/driver problem, not a verdict: %s on case %s" % (verdict, case[0].strip()))
         n += 1
